@@ -186,13 +186,8 @@ class Region:
                 import driver
                 arms = [(r, a) for r, a in C.arms.items() if r != 'other'] + [('other#%d' % i, a) for i, a in enumerate(C.arms.get('other', []))]
                 for role, arm in arms:
-                    # (driver.arm_paths looks its arm up by role: the arm is entered under a role of its own for the call)
-                    key = ('readbuf', role)
-                    C.arms[key] = arm
-                    try:
-                        outs, I = driver.arm_paths(C, key)
-                    finally:
-                        del C.arms[key]
+                    # (driver.arm_paths takes a role name or the arm itself: the arms without a role of their own are handed over as they are)
+                    outs, I = driver.arm_paths(C, arm)
                     self.runs.append(('arm %s' % role, outs, I, C.loop))
             else:
                 self.whole_body()
